@@ -1,6 +1,6 @@
 (* C11 — lemmas about Model/Fsm.v (generic in the option processor) and its three instances. *)
 From Coq Require Import ZArith NArith List Bool Lia ZifyN ZifyNat ZifyBool.
-From Verif Require Import Base.Word Model.Fsm Model.Lcp Model.Ipcp Model.Ipv6cp Model.FsmSpec.
+From Verif Require Import Base.Word Model.Fsm Model.Lcp Model.Ipcp Model.Ipv6cp Model.FsmSpec Model.FsmCheck.
 Import ListNotations.
 Local Open Scope N_scope.
 
@@ -68,6 +68,7 @@ Section Generic.
     | _ => true
     end.
 
+  Ltac fail_show := match goal with |- ?G => idtac G; fail 1 end.
   Ltac brk :=
     repeat match goal with
            | |- context [if ?b then _ else _] => destruct b eqn:?
@@ -78,50 +79,50 @@ Section Generic.
     destruct (f_st s) eqn:Hst; cbn in H |- *; rewrite ?Hst; cbn; try reflexivity; try exact H;
     try (apply andb_prop in H; destruct H as [? ?]); try assumption.
 
+  Ltac ds s := destruct s as [st0 x0 rc0 id0 last0 arm0 tok0 pend0 we0 peer0].
+  Ltac fin H := cbn in H |- *; try reflexivity; try exact H; try discriminate;
+                try (apply andb_prop in H; destruct H as [? ?]; subst; cbn; try reflexivity; try assumption);
+                try (rewrite H; reflexivity).
+
   Lemma inv1_close r s pk : inv1b s = true -> inv1b (fst (close_internal P r (s, pk))) = true.
-  Proof.
-    intros H. unfold close_internal, inv1b in *. cbn [fst snd]. destruct (f_st s) eqn:Hst; cbn; rewrite ?Hst; auto.
-  Qed.
+  Proof. intros H. ds s. unfold close_internal, inv1b in *. destruct st0; fin H. Qed.
 
   Lemma inv1_timeout s pk : inv1b s = true -> inv1b (fst (do_timeout P (s, pk))) = true.
   Proof.
-    intros H. unfold do_timeout, inv1b in *. cbn [fst snd].
-    destruct (0 <? f_rc s)%Z; destruct (f_st s) eqn:Hst; cbn; rewrite ?Hst; auto.
+    intros H. ds s. unfold do_timeout, inv1b in *. cbn [fst snd f_rc f_st].
+    destruct (0 <? rc0)%Z; destruct st0; fin H.
   Qed.
 
   Lemma inv1_step s e : inv1b s = true -> inv1b (next P s e) = true.
   Proof.
     intros H. rewrite next_tr. unfold tr_m, trans.
     destruct e as [| | | |d|t|].
-    - unfold do_up, inv1b in *. cbn [fst snd]. destruct (f_st s) eqn:Hst; cbn; rewrite ?Hst; auto.
-    - unfold do_down, inv1b in *. cbn [fst snd stop_timer f_st]. destruct (f_st s) eqn:Hst; cbn; rewrite ?Hst; auto.
-    - unfold do_open, inv1b in *. cbn [fst snd]. destruct (f_st s) eqn:Hst; cbn; rewrite ?Hst; auto.
+    - ds s. unfold do_up, inv1b in *. destruct st0; fin H.
+    - ds s. unfold do_down, inv1b in *. destruct st0; fin H.
+    - ds s. unfold do_open, inv1b in *. destruct st0; fin H.
     - apply inv1_close. exact H.
     - unfold do_recv. destruct (parse_pkt d) as [[[c i] data]|]; [|exact H].
       destruct (c =? 1).
       { destruct (parse_opts data) as [opts|]; [|exact H].
         unfold do_rcr. cbn [fst snd].
         destruct (pr_cr P (f_x s) opts) as [[x' [[ack nak] rej]] mk].
-        cbn [fst snd]. unfold inv1b in *.
-        destruct (f_st s) eqn:Hst; cbn; destruct (_ =? 2) eqn:E; cbn; rewrite ?Hst; cbn; auto. }
+        cbn [fst snd]. ds s. unfold inv1b in *.
+        destruct (nonempty rej); [|destruct (nonempty nak)]; destruct st0; fin H. }
       destruct (c =? 2).
       { unfold do_rca. cbn [fst snd]. destruct (i =? f_last s); cbn [negb]; [|exact H].
-        unfold inv1b in *. destruct (f_st s) eqn:Hst; cbn; rewrite ?Hst; cbn; auto.
-        apply andb_prop in H. destruct H as [H1 H2]. rewrite H1. reflexivity. }
+        ds s. unfold inv1b in *. destruct st0; fin H. }
       destruct (c =? 3).
       { unfold do_rcn. cbn [fst snd]. destruct (i =? f_last s); cbn [negb]; [|exact H].
-        unfold nakrej_tail, inv1b in *.
-        destruct (parse_opts data); [|destruct (pr_nak_strict P)];
-          destruct (f_st s) eqn:Hst; cbn; rewrite ?Hst; cbn; auto. }
+        ds s. unfold nakrej_tail, inv1b in *.
+        destruct (parse_opts data); [|destruct (pr_nak_strict P)]; destruct st0; fin H. }
       destruct (c =? 4).
       { unfold do_rcj. cbn [fst snd]. destruct (i =? f_last s); cbn [negb]; [|exact H].
-        unfold nakrej_tail, inv1b in *.
-        destruct (parse_opts data); [|destruct (pr_rej_strict P)];
-          destruct (f_st s) eqn:Hst; cbn; rewrite ?Hst; cbn; auto. }
+        ds s. unfold nakrej_tail, inv1b in *.
+        destruct (parse_opts data); [|destruct (pr_rej_strict P)]; destruct st0; fin H. }
       destruct (c =? 5).
-      { unfold do_rtr, inv1b in *. cbn [fst snd stop_timer f_st]. destruct (f_st s) eqn:Hst; cbn; rewrite ?Hst; auto. }
+      { ds s. unfold do_rtr, inv1b in *. destruct st0; fin H. }
       destruct (c =? 6).
-      { unfold do_rta, inv1b in *. cbn [fst snd stop_timer f_st]. destruct (f_st s) eqn:Hst; cbn; rewrite ?Hst; auto. }
+      { ds s. unfold do_rta, inv1b in *. destruct st0; fin H. }
       destruct (pr_lcp P); [|exact H].
       unfold do_lcp_other. cbn [fst snd].
       destruct (c =? 7).
@@ -129,13 +130,11 @@ Section Generic.
       destruct (c =? 8).
       { destruct data as [|a [|b tl]]; try exact H. destruct (_ =? _); [|exact H]. apply inv1_close. exact H. }
       destruct (c =? 9).
-      { unfold inv1b in *. destruct (f_st s) eqn:Hst; cbn; rewrite ?Hst; auto.
-        destruct (len data <? 4); cbn; rewrite ?Hst; auto. }
+      { ds s. unfold inv1b in *. destruct st0; destruct (len data <? 4); fin H. }
       destruct (_ || _); [exact H|].
-      unfold inv1b in *. cbn. exact H.
-    - destruct (memN t (f_pend s)); [|exact H]. apply inv1_timeout. exact H.
-    - unfold do_echo, inv1b in *. cbn [fst snd]. destruct (f_st s) eqn:Hst; cbn; rewrite ?Hst; auto.
-      destruct (pr_lcp P); cbn; rewrite ?Hst; auto.
+      ds s. unfold inv1b in *. fin H.
+    - destruct (memN t (f_pend s)); [|exact H]. apply inv1_timeout. ds s. exact H.
+    - ds s. unfold do_echo, inv1b in *. destruct st0; destruct (pr_lcp P); fin H.
   Qed.
 
   Lemma inv1_run evs : forall s, inv1b s = true -> inv1b (run P s evs) = true.
@@ -150,4 +149,630 @@ Section Generic.
     intros Ho. assert (H := inv1_run evs (init x) eq_refl). unfold inv1b in H. rewrite Ho in H.
     apply andb_prop in H. exact H.
   Qed.
+
+  (* ------------------------------------------------------------------ T6 / T6' : silence *)
+  (* the peer is silent and timers are atomic: the only thing that happens is the regular expiry of
+     the running restart timer, if there is one *)
+  Definition silent_step (s : fsm X) : fsm X := if fresh s then next P s (EFire (f_tok s)) else s.
+  Definition silent_out (s : fsm X) : list pkt := if fresh s then sent P s (EFire (f_tok s)) else [].
+  Fixpoint silent (n : nat) (s : fsm X) : fsm X :=
+    match n with O => s | S k => silent k (silent_step s) end.
+  Fixpoint silent_sent (n : nat) (s : fsm X) : list pkt :=
+    match n with O => [] | S k => silent_out s ++ silent_sent k (silent_step s) end.
+  Definition count_req (pk : list pkt) : nat := length (filter is_req pk).
+
+  Lemma memN_head t l : memN t (t :: l) = true.
+  Proof. unfold memN. cbn. rewrite N.eqb_refl. reflexivity. Qed.
+
+  Lemma silent_terminal s : terminal (f_st s) = true ->
+    f_st (silent_step s) = f_st s /\ silent_out s = [].
+  Proof.
+    intros T. unfold silent_step, silent_out. destruct (fresh s) eqn:F; [|split; reflexivity].
+    rewrite next_tr, sent_tr. unfold tr_m, trans.
+    unfold fresh in F. apply andb_prop in F as [_ F]. rewrite F.
+    ds s. unfold do_timeout. cbn [fst snd f_rc f_st] in *.
+    destruct (0 <? rc0)%Z; destruct st0; try discriminate; split; reflexivity.
+  Qed.
+
+  Definition after_silence (v : st) : st := match v with Closing => Closed | _ => Stopped end.
+
+  Lemma silent_transient s : terminal (f_st s) = false -> fresh s = true ->
+    ((0 < f_rc s)%Z ->
+       terminal (f_st (silent_step s)) = false /\ fresh (silent_step s) = true /\
+       f_rc (silent_step s) = (f_rc s - 1)%Z /\ count_req (silent_out s) = 1%nat /\
+       after_silence (f_st (silent_step s)) = after_silence (f_st s)) /\
+    ((f_rc s <= 0)%Z -> f_st (silent_step s) = after_silence (f_st s) /\ silent_out s = []).
+  Proof.
+    intros T F. unfold silent_step, silent_out. rewrite F.
+    rewrite next_tr, sent_tr. unfold tr_m, trans.
+    unfold fresh in F. apply andb_prop in F as [_ F]. rewrite F.
+    ds s. unfold do_timeout. cbn [fst snd f_rc f_st] in *.
+    split; intros Hrc.
+    - assert (E : (0 <? rc0)%Z = true) by lia. rewrite E.
+      destruct st0; try discriminate; cbn; unfold fresh; cbn; rewrite ?N.eqb_refl; cbn; repeat split; try reflexivity; fail_show.
+    - assert (E : (0 <? rc0)%Z = false) by lia. rewrite E.
+      destruct st0; try discriminate; cbn; split; reflexivity.
+  Qed.
+
+  Lemma silent_terminal_n n : forall s, terminal (f_st s) = true ->
+    f_st (silent n s) = f_st s /\ silent_sent n s = [].
+  Proof.
+    induction n as [|n IH]; intros s T; cbn; [split; reflexivity|].
+    destruct (silent_terminal s T) as [E1 E2]. rewrite E2. cbn.
+    assert (T' : terminal (f_st (silent_step s)) = true) by (rewrite E1; exact T).
+    destruct (IH _ T') as [E3 E4]. rewrite E3, E4, E1. split; reflexivity.
+  Qed.
+
+  Lemma after_silence_terminal v : terminal (after_silence v) = true.
+  Proof. destruct v; reflexivity. Qed.
+
+  (* from a retransmitting state with a running timer: exactly restartCount further requests, then
+     Closed (from Closing) or Stopped *)
+  Lemma silence_terminates n : forall s,
+    terminal (f_st s) = false -> fresh s = true -> (Z.to_nat (f_rc s) < n)%nat ->
+    f_st (silent n s) = after_silence (f_st s) /\ count_req (silent_sent n s) = Z.to_nat (f_rc s).
+  Proof.
+    induction n as [|n IH]; intros s T F Hn; [lia|].
+    cbn. destruct (silent_transient s T F) as [Hpos Hnon].
+    destruct (Z_lt_le_dec 0 (f_rc s)) as [Hrc|Hrc].
+    - destruct (Hpos Hrc) as (T' & F' & Erc & Ec & Ea).
+      assert (Hn' : (Z.to_nat (f_rc (silent_step s)) < n)%nat) by (rewrite Erc; lia).
+      destruct (IH _ T' F' Hn') as [E1 E2].
+      rewrite E1, Ea. split; [reflexivity|].
+      unfold count_req in *. rewrite filter_app, app_length, Ec, E2, Erc. lia.
+    - destruct (Hnon Hrc) as [E1 E2]. rewrite E2. cbn.
+      assert (T' : terminal (f_st (silent_step s)) = true) by (rewrite E1; apply after_silence_terminal).
+      destruct (silent_terminal_n n _ T') as [E3 E4]. rewrite E3, E4, E1.
+      split; [reflexivity|]. cbn. lia.
+  Qed.
+
+  (* T6': under the guard [live] silence always ends in a state without timer, within the bound *)
+  Theorem silent_peer_terminates_live s n :
+    live s = true -> (Z.to_nat (f_rc s) < n)%nat ->
+    terminal (f_st (silent n s)) = true /\ (count_req (silent_sent n s) <= Z.to_nat (f_rc s))%nat.
+  Proof.
+    intros L Hn. unfold live in L. destruct (terminal (f_st s)) eqn:T.
+    - destruct (silent_terminal_n n s T) as [E1 E2]. rewrite E1, E2. split; [exact T|cbn; lia].
+    - cbn in L. destruct (silence_terminates n s T L Hn) as [E1 E2]. rewrite E1, E2.
+      split; [apply after_silence_terminal|lia].
+  Qed.
+
+  Lemma silent_stuck n : forall s, fresh s = false -> silent n s = s.
+  Proof.
+    induction n as [|n IH]; intros s F; cbn; [reflexivity|].
+    unfold silent_step. rewrite F. apply IH. exact F.
+  Qed.
+
+  (* T6: Open, Up, then silence *)
+  Theorem silent_peer_after_open_up x n :
+    (Z.to_nat (pr_irc P x - 1) < n)%nat ->
+    let s1 := run P (init x) [EOpen; EUp] in
+    f_st (silent n s1) = Stopped /\
+    (count_req (sent P (init x) EOpen ++ sent P (next P (init x) EOpen) EUp ++ silent_sent n s1)
+     = Z.to_nat (Z.max (pr_irc P x) 1))%nat.
+  Proof.
+    intros Hn s1.
+    assert (Es : s1 = fst (goto ReqSent (scr P (irc P (set_st (init x) Starting, []))))).
+    { unfold s1, run. cbn [fold_left]. rewrite !next_tr. reflexivity. }
+    assert (T : terminal (f_st s1) = false) by (rewrite Es; reflexivity).
+    assert (F : fresh s1 = true) by (rewrite Es; unfold fresh; cbn; rewrite ?N.eqb_refl; reflexivity).
+    assert (R : f_rc s1 = (pr_irc P x - 1)%Z) by (rewrite Es; reflexivity).
+    assert (Hn' : (Z.to_nat (f_rc s1) < n)%nat) by (rewrite R; exact Hn).
+    destruct (silence_terminates n s1 T F Hn') as [E1 E2].
+    split; [rewrite E1, Es; reflexivity|].
+    rewrite !sent_tr. unfold count_req in *. rewrite !filter_app, !app_length, E2, R. cbn. lia.
+  Qed.
+
+  (* T6 (terminate): Close in a negotiating or opened state, then silence *)
+  Theorem silent_peer_after_close s n :
+    (f_st s = ReqSent \/ f_st s = AckRcvd \/ f_st s = AckSent \/ f_st s = Opened) ->
+    (Z.to_nat (pr_irc P (f_x s) - 1) < n)%nat ->
+    let s1 := next P s EClose in
+    f_st (silent n s1) = Closed /\
+    (count_req (sent P s EClose ++ silent_sent n s1) = Z.to_nat (Z.max (pr_irc P (f_x s)) 1))%nat.
+  Proof.
+    intros Hst Hn s1.
+    assert (Es : s1 = fst (goto Closing (str str_admin (irc P (s, []))))).
+    { unfold s1. rewrite next_tr. unfold tr_m, trans, close_internal. cbn [fst snd].
+      destruct Hst as [H|[H|[H|H]]]; rewrite H; reflexivity. }
+    assert (T : terminal (f_st s1) = false) by (rewrite Es; reflexivity).
+    assert (F : fresh s1 = true) by (rewrite Es; unfold fresh; cbn; rewrite ?N.eqb_refl; reflexivity).
+    assert (R : f_rc s1 = (pr_irc P (f_x s) - 1)%Z) by (rewrite Es; reflexivity).
+    assert (Hn' : (Z.to_nat (f_rc s1) < n)%nat) by (rewrite R; exact Hn).
+    destruct (silence_terminates n s1 T F Hn') as [E1 E2].
+    split; [rewrite E1, Es; reflexivity|].
+    rewrite sent_tr. unfold tr_m, trans, close_internal. cbn [fst snd].
+    unfold count_req in *. rewrite filter_app, app_length, E2, R.
+    destruct Hst as [H|[H|[H|H]]]; rewrite H; cbn; lia.
+  Qed.
+
+  (* ------------------------------------------------------------------ T3 *)
+  Ltac idfin := cbn; rewrite ?N.eqb_refl; cbn; try reflexivity.
+
+  Lemma close_ids r s e : chk_ids e (snd (close_internal P r (s, []))) = true.
+  Proof. ds s. unfold close_internal, chk_ids. destruct st0; reflexivity. Qed.
+
+  Theorem reply_echoes_id s e : chk_ids e (sent P s e) = true.
+  Proof.
+    rewrite sent_tr. unfold tr_m, trans.
+    destruct e as [| | | |d|t|].
+    - ds s. unfold do_up, chk_ids. destruct st0; reflexivity.
+    - ds s. unfold do_down, chk_ids. destruct st0; reflexivity.
+    - ds s. unfold do_open, chk_ids. destruct st0; reflexivity.
+    - apply close_ids.
+    - unfold do_recv. destruct (parse_pkt d) as [[[c i] data]|] eqn:Ep; [|reflexivity].
+      unfold chk_ids, parsed. rewrite Ep.
+      destruct (c =? 1) eqn:E1.
+      { apply N.eqb_eq in E1. subst c.
+        destruct (parse_opts data) as [opts|]; [|reflexivity].
+        unfold do_rcr. cbn [fst snd].
+        destruct (pr_cr P (f_x s) opts) as [[x' [[ack nak] rej]] mk].
+        cbn [fst snd]. ds s.
+        destruct (nonempty rej); [|destruct (nonempty nak)]; destruct st0; idfin. }
+      destruct (c =? 2) eqn:E2.
+      { apply N.eqb_eq in E2. subst c. unfold do_rca. cbn [fst snd].
+        destruct (i =? f_last s); cbn [negb]; [|reflexivity]. ds s. destruct st0; idfin. }
+      destruct (c =? 3) eqn:E3.
+      { apply N.eqb_eq in E3. subst c. unfold do_rcn. cbn [fst snd].
+        destruct (i =? f_last s); cbn [negb]; [|reflexivity]. ds s. unfold nakrej_tail.
+        destruct (parse_opts data); [|destruct (pr_nak_strict P)]; destruct st0; idfin. }
+      destruct (c =? 4) eqn:E4.
+      { apply N.eqb_eq in E4. subst c. unfold do_rcj. cbn [fst snd].
+        destruct (i =? f_last s); cbn [negb]; [|reflexivity]. ds s. unfold nakrej_tail.
+        destruct (parse_opts data); [|destruct (pr_rej_strict P)]; destruct st0; idfin. }
+      destruct (c =? 5) eqn:E5.
+      { apply N.eqb_eq in E5. subst c. ds s. unfold do_rtr. destruct st0; idfin. }
+      destruct (c =? 6) eqn:E6.
+      { ds s. unfold do_rta. destruct st0; idfin. }
+      destruct (pr_lcp P); [|reflexivity].
+      unfold do_lcp_other. cbn [fst snd].
+      destruct (c =? 7) eqn:E7.
+      { destruct data as [|r tl]; [reflexivity|]. destruct ((1 <=? r) && (r <=? 4)); [|reflexivity].
+        ds s. unfold close_internal. destruct st0; reflexivity. }
+      destruct (c =? 8) eqn:E8.
+      { destruct data as [|a [|b tl]]; try reflexivity. destruct (be16 a b =? 49185); [|reflexivity].
+        ds s. unfold close_internal. destruct st0; reflexivity. }
+      destruct (c =? 9) eqn:E9.
+      { ds s. destruct st0; try reflexivity. destruct (len data <? 4); idfin; rewrite ?E9; try reflexivity. }
+      destruct (_ || _); reflexivity.
+    - destruct (memN t (f_pend s)); [|reflexivity].
+      ds s. unfold do_timeout, chk_ids. cbn [fst snd f_rc f_st]. destruct (0 <? rc0)%Z; destruct st0; reflexivity.
+    - ds s. unfold do_echo, chk_ids. destruct st0; destruct (pr_lcp P); reflexivity.
+  Qed.
+
+  (* ------------------------------------------------------------------ T6': which events take the timer away *)
+  Definition stops_timer_ev (last : N) (e : ev) : bool :=
+    match e with
+    | ERecv d => match parse_pkt d with
+                 | Some (c, i, _) => (in_range 2 c 4 && (i =? last)) || (c =? 5) || (c =? 6)
+                 | None => false
+                 end
+    | _ => false
+    end.
+
+  Ltac lfin H := cbn in H |- *; rewrite ?N.eqb_refl; cbn; try reflexivity; try exact H; try discriminate.
+
+  Lemma live_close r s : live s = true -> live (fst (close_internal P r (s, []))) = true.
+  Proof. intros H. ds s. unfold close_internal, live, fresh in *. destruct st0; lfin H. Qed.
+
+  Theorem live_preserved s e :
+    live s = true -> stops_timer_ev (f_last s) e = false -> live (next P s e) = true.
+  Proof.
+    intros H Hs. rewrite next_tr. unfold tr_m, trans.
+    destruct e as [| | | |d|t|].
+    - ds s. unfold do_up, live, fresh in *. destruct st0; lfin H.
+    - ds s. unfold do_down, live, fresh in *. destruct st0; lfin H.
+    - ds s. unfold do_open, live, fresh in *. destruct st0; lfin H.
+    - apply live_close. exact H.
+    - unfold do_recv. cbn in Hs. destruct (parse_pkt d) as [[[c i] data]|]; [|exact H].
+      destruct (c =? 1) eqn:E1.
+      { destruct (parse_opts data) as [opts|]; [|exact H].
+        unfold do_rcr. cbn [fst snd].
+        destruct (pr_cr P (f_x s) opts) as [[x' [[ack nak] rej]] mk].
+        cbn [fst snd]. ds s. unfold live, fresh in *.
+        destruct (nonempty rej); [|destruct (nonempty nak)]; destruct st0; lfin H. }
+      destruct (c =? 2) eqn:E2.
+      { apply N.eqb_eq in E2. subst c. cbn in Hs. rewrite ?orb_false_r in Hs.
+        unfold do_rca. cbn [fst snd]. rewrite Hs. exact H. }
+      destruct (c =? 3) eqn:E3.
+      { apply N.eqb_eq in E3. subst c. cbn in Hs. rewrite ?orb_false_r in Hs.
+        unfold do_rcn. cbn [fst snd]. rewrite Hs. exact H. }
+      destruct (c =? 4) eqn:E4.
+      { apply N.eqb_eq in E4. subst c. cbn in Hs. rewrite ?orb_false_r in Hs.
+        unfold do_rcj. cbn [fst snd]. rewrite Hs. exact H. }
+      destruct (c =? 5) eqn:E5.
+      { rewrite orb_true_r in Hs. discriminate. }
+      destruct (c =? 6) eqn:E6.
+      { rewrite orb_true_r in Hs. discriminate. }
+      destruct (pr_lcp P); [|exact H].
+      unfold do_lcp_other. cbn [fst snd].
+      destruct (c =? 7).
+      { destruct data as [|r tl]; [exact H|]. destruct ((1 <=? r) && (r <=? 4)); [|exact H]. apply live_close. exact H. }
+      destruct (c =? 8).
+      { destruct data as [|a [|b tl]]; try exact H. destruct (be16 a b =? 49185); [|exact H]. apply live_close. exact H. }
+      destruct (c =? 9).
+      { ds s. unfold live, fresh in *. destruct st0; destruct (len data <? 4); lfin H. }
+      destruct ((c =? 10) || (c =? 11)); [exact H|].
+      ds s. unfold live, fresh in *. lfin H.
+    - destruct (memN t (f_pend s)); [|exact H].
+      ds s. unfold do_timeout, live, fresh in *. cbn [fst snd f_rc f_st].
+      destruct (0 <? rc0)%Z; destruct st0; lfin H.
+    - ds s. unfold do_echo, live, fresh in *. destruct st0; destruct (pr_lcp P); lfin H.
+  Qed.
+
+  (* ------------------------------------------------------------------ T4: shape of the reply to a Configure-Request *)
+  Definition resp_code (nak rej : list opt) : N := if nonempty rej then 4 else if nonempty nak then 3 else 2.
+  Definition resp_opts (ack nak rej : list opt) : list opt := if nonempty rej then rej else if nonempty nak then nak else ack.
+
+  Lemma rcr_sent s d i data opts x' ack nak rej mk :
+    parse_pkt d = Some (1, i, data) -> parse_opts data = Some opts ->
+    pr_cr P (f_x s) opts = (x', (ack, nak, rej), mk) ->
+    exists rest, sent P s (ERecv d) = packet (resp_code nak rej) i (ser_opts (resp_opts ack nak rej)) :: rest /\
+                 forallb (fun p => negb (in_range 2 (pc p) 4)) rest = true.
+  Proof.
+    intros Ep Eo Ec. rewrite sent_tr. unfold tr_m, trans, do_recv. rewrite Ep. cbn [N.eqb Pos.eqb]. rewrite Eo.
+    unfold do_rcr. cbn [fst snd]. rewrite Ec. cbn [fst snd]. unfold resp_code, resp_opts.
+    ds s. destruct (nonempty rej); [|destruct (nonempty nak)]; destruct st0; cbn; eexists; split; reflexivity.
+  Qed.
 End Generic.
+
+(* ---------------------------------------------------------------------- classify *)
+Inductive sublist {A} : list A -> list A -> Prop :=
+| sub_nil : forall r, sublist [] r
+| sub_take : forall a l r, sublist l r -> sublist (a :: l) (a :: r)
+| sub_skip : forall a l r, sublist l r -> sublist l (a :: r).
+
+Section ClassifyFacts.
+  Context {X : Type}.
+  Variable f : X -> opt -> X * verdict.
+  Variable Q : X -> Prop.
+  Hypothesis Qf : forall x o, Q x -> Q (fst (f x o)).
+
+  Lemma classify_all_ack opts : forall x x' ack,
+    classify f x opts = (x', (ack, [], [])) -> ack = opts.
+  Proof.
+    induction opts as [|o tl IH]; intros x x' ack H; cbn in H.
+    - inversion H. reflexivity.
+    - destruct (f x o) as [x1 v]. destruct (classify f x1 tl) as [x2 [[a n] r]] eqn:E.
+      destruct v; inversion H; subst. f_equal. eapply IH. exact E.
+  Qed.
+
+  (* what the three result lists are made of: [x1] is the processor state when the option was examined *)
+  Lemma classify_parts opts : forall x x' ack nak rej,
+    Q x -> classify f x opts = (x', (ack, nak, rej)) ->
+    (sublist ack opts /\ forall o, In o ack -> exists x1, Q x1 /\ snd (f x1 o) = VAck) /\
+    (sublist rej opts /\ forall o, In o rej -> exists x1, Q x1 /\ snd (f x1 o) = VRej) /\
+    (forall o', In o' nak -> exists x1 o, Q x1 /\ In o opts /\ snd (f x1 o) = VNak o').
+  Proof.
+    induction opts as [|o tl IH]; intros x x' ack nak rej HQ H; cbn in H.
+    - inversion H. repeat split; try constructor; intros ? [].
+    - destruct (f x o) as [x1 v] eqn:Ef. destruct (classify f x1 tl) as [x2 [[a n] r]] eqn:E.
+      assert (HQ1 : Q x1) by (specialize (Qf x o HQ); rewrite Ef in Qf; exact Qf).
+      destruct (IH _ _ _ _ _ HQ1 E) as [[Sa Ia] [[Sr Ir] In_]].
+      assert (In' : forall o', In o' n -> exists x1 o0, Q x1 /\ In o0 (o :: tl) /\ snd (f x1 o0) = VNak o').
+      { intros o' Hin. destruct (In_ o' Hin) as (xa & ob & Hq & Hi & Hv). exists xa, ob. repeat split; [exact Hq|right; exact Hi|exact Hv]. }
+      destruct v; inversion H; subst.
+      + repeat split; [constructor; exact Sa| |constructor; exact Sr|exact Ir|exact In'].
+        intros o' [<-|Hin]; [exists x; split; [exact HQ|rewrite Ef; reflexivity]|apply Ia; exact Hin].
+      + repeat split; [constructor; exact Sa|exact Ia|constructor; exact Sr|exact Ir|].
+        intros o' [<-|Hin]; [exists x, o; repeat split; [exact HQ|left; reflexivity|rewrite Ef; reflexivity]|apply In'; exact Hin].
+      + repeat split; [constructor; exact Sa|exact Ia|constructor; exact Sr| |exact In'].
+        intros o' [<-|Hin]; [exists x; split; [exact HQ|rewrite Ef; reflexivity]|apply Ir; exact Hin].
+  Qed.
+
+  Lemma classify_nak_types opts : forall x x' ack nak rej,
+    classify f x opts = (x', (ack, nak, rej)) ->
+    (forall x1 o x2 o', f x1 o = (x2, VNak o') -> ot o' = ot o) ->
+    sublist (map ot nak) (map ot opts).
+  Proof.
+    induction opts as [|o tl IH]; intros x x' ack nak rej H Ht; cbn in H.
+    - inversion H. constructor.
+    - destruct (f x o) as [x1 v] eqn:Ef. destruct (classify f x1 tl) as [x2 [[a n] r]] eqn:E.
+      pose proof (IH _ _ _ _ _ E Ht) as S.
+      destruct v; inversion H; subst; cbn; [constructor; exact S| |constructor; exact S].
+      rewrite (Ht _ _ _ _ Ef). constructor. exact S.
+  Qed.
+End ClassifyFacts.
+
+(* ---------------------------------------------------------------------- T4 for a classify-based processor *)
+Section T4.
+  Context {X : Type}.
+  Variable P : procs X.
+  Variable f : X -> opt -> X * verdict.
+  Variable Q : X -> Prop.
+  Hypothesis Qf : forall x o, Q x -> Q (fst (f x o)).
+  Hypothesis Hcr : forall x opts, fst (pr_cr P x opts) = classify f x opts.
+  Hypothesis Hty : forall x1 o x2 o', f x1 o = (x2, VNak o') -> ot o' = ot o.
+
+  Theorem reply_options s d i data opts p :
+    Q (f_x s) ->
+    parse_pkt d = Some (1, i, data) -> parse_opts data = Some opts -> In p (sent P s (ERecv d)) ->
+    (pc p = 2 -> pd p = ser_opts opts) /\
+    (pc p = 4 -> exists l, pd p = ser_opts l /\ sublist l opts /\
+                 forall o, In o l -> exists x1, Q x1 /\ snd (f x1 o) = VRej) /\
+    (pc p = 3 -> exists l, pd p = ser_opts l /\ sublist (map ot l) (map ot opts) /\
+                 forall o', In o' l -> exists x1 o, Q x1 /\ In o opts /\ snd (f x1 o) = VNak o').
+  Proof.
+    intros HQ Ep Eo Hin.
+    destruct (pr_cr P (f_x s) opts) as [[x' [[ack nak] rej]] mk] eqn:Ec.
+    assert (Ecl : classify f (f_x s) opts = (x', (ack, nak, rej))) by (rewrite <- Hcr, Ec; reflexivity).
+    destruct (rcr_sent P s d i data opts x' ack nak rej mk Ep Eo Ec) as [rest [Es Hrest]].
+    rewrite Es in Hin.
+    destruct (classify_parts f Q Qf opts _ _ _ _ _ HQ Ecl) as [[Sa Ia] [[Sr Ir] In_]].
+    pose proof (classify_nak_types f opts _ _ _ _ _ Ecl Hty) as Sn.
+    destruct Hin as [<-|Hin].
+    - unfold resp_code, resp_opts. cbn [pc pd packet].
+      destruct rej as [|r0 rj]; cbn [nonempty].
+      + destruct nak as [|n0 nk]; cbn [nonempty].
+        * repeat split; try discriminate. intros _. rewrite (classify_all_ack f opts _ _ _ Ecl). reflexivity.
+        * repeat split; try discriminate. intros _. exists (n0 :: nk). repeat split; [exact Sn|exact In_].
+      + repeat split; try discriminate. intros _. exists (r0 :: rj). repeat split; [exact Sr|exact Ir].
+    - rewrite forallb_forall in Hrest. specialize (Hrest p Hin). unfold in_range in Hrest.
+      repeat split; intros Hc; rewrite Hc in Hrest; discriminate.
+  Qed.
+End T4.
+
+(* ---------------------------------------------------------------------- the three instances *)
+Lemma lcp_nak_type x1 o x2 o' : lcp_opt x1 o = (x2, VNak o') -> ot o' = ot o.
+Proof.
+  unfold lcp_opt. intros H.
+  destruct (ot o =? 1) eqn:E1.
+  { apply N.eqb_eq in E1. rewrite E1. destruct (negb (len (od o) =? 2)); [discriminate|].
+    destruct (_ && _); [discriminate|]. destruct (_ <? 64); inversion H; reflexivity. }
+  destruct (ot o =? 3); [discriminate|].
+  destruct (ot o =? 5) eqn:E5.
+  { apply N.eqb_eq in E5. rewrite E5. destruct (negb (len (od o) =? 4)); [discriminate|].
+    destruct (be_val (od o) =? 0).
+    { destruct (draw32 (lx_rng x1)). inversion H. reflexivity. }
+    destruct (be_val (od o) =? lx_magic x1); [|discriminate].
+    destruct (draw32 (lx_rng x1)) as [nm r1]. destruct (draw32 r1). inversion H. reflexivity. }
+  destruct ((ot o =? 7) || (ot o =? 8)); [destruct (negb (len (od o) =? 0))|]; discriminate.
+Qed.
+
+Lemma lcp_rej_unacceptable x o k a b :
+  snd (lcp_opt x o) = VRej -> mk_kind k = 0 -> acceptable k a b o = false.
+Proof.
+  unfold lcp_opt, acceptable. intros H Hk. rewrite Hk. cbn [N.eqb].
+  destruct (ot o =? 1) eqn:E1.
+  { destruct (len (od o) =? 2); [|reflexivity]. cbn [negb] in H. unfold in_range.
+    destruct (_ && _); [discriminate|]. destruct (_ <? 64); discriminate. }
+  destruct (ot o =? 3) eqn:E3.
+  { apply N.eqb_eq in E3. rewrite E3. reflexivity. }
+  destruct (ot o =? 5) eqn:E5.
+  { destruct (len (od o) =? 4); [|reflexivity]. cbn [negb] in H.
+    destruct (be_val (od o) =? 0). { destruct (draw32 (lx_rng x)). discriminate. }
+    destruct (be_val (od o) =? lx_magic x); [|discriminate].
+    destruct (draw32 (lx_rng x)) as [nm r1]. destruct (draw32 r1). discriminate. }
+  destruct ((ot o =? 7) || (ot o =? 8)); [|reflexivity].
+  destruct (len (od o) =? 0); [discriminate|reflexivity].
+Qed.
+
+Lemma ipcp_opt_x x o : fst (ipcp_opt x o) = x.
+Proof.
+  unfold ipcp_opt. destruct (ot o =? 3).
+  { destruct (negb _); [reflexivity|]. destruct (is_zero (od o)); destruct (ix_peer x); try reflexivity.
+    destruct (bytes_eqb _ _); reflexivity. }
+  destruct (ot o =? 129); [reflexivity|]. destruct (ot o =? 131); reflexivity.
+Qed.
+
+Lemma ipcp_nak_type x1 o x2 o' : ipcp_opt x1 o = (x2, VNak o') -> ot o' = ot o.
+Proof.
+  unfold ipcp_opt, ipcp_dns. intros H.
+  destruct (ot o =? 3) eqn:E3.
+  { apply N.eqb_eq in E3. rewrite E3. destruct (negb _); [discriminate|].
+    destruct (is_zero (od o)); destruct (ix_peer x1); try discriminate; try (inversion H; reflexivity).
+    destruct (bytes_eqb _ _); [discriminate|inversion H; reflexivity]. }
+  destruct (ot o =? 129) eqn:E9.
+  { apply N.eqb_eq in E9. rewrite E9. destruct (negb _); [discriminate|].
+    destruct (is_zero (od o)); [|discriminate]. destruct (ix_dns1 x1); inversion H; reflexivity. }
+  destruct (ot o =? 131) eqn:E1.
+  { apply N.eqb_eq in E1. rewrite E1. destruct (negb _); [discriminate|].
+    destruct (is_zero (od o)); [|discriminate]. destruct (ix_dns2 x1); inversion H; reflexivity. }
+  discriminate.
+Qed.
+
+(* the monitor configuration that belongs to an IPCP option state *)
+Definition ipcp_mcfg (x : ipx) (k : mcfg) : Prop :=
+  mk_kind k = 1 /\ mk_assigned k = ix_peer x /\ mk_dns1 k = isSome (ix_dns1 x) /\ mk_dns2 k = isSome (ix_dns2 x).
+
+Lemma ipcp_unacceptable x o k a b v :
+  ipcp_mcfg x k -> snd (ipcp_opt x o) = v -> v <> VAck -> acceptable k a b o = false.
+Proof.
+  intros (Hk & Ha & H1 & H2) H Hv. unfold acceptable. rewrite Hk, Ha, H1, H2. cbn [N.eqb Pos.eqb].
+  unfold ipcp_opt, ipcp_dns, is_zero in H.
+  destruct (ot o =? 3).
+  { destruct (len (od o) =? 4); [|reflexivity]. cbn [negb] in H.
+    destruct (forallb (N.eqb 0) (od o)); [reflexivity|]. cbn.
+    destruct (ix_peer x); [|subst v; contradiction].
+    destruct (bytes_eqb (od o) l); [subst v; contradiction|reflexivity]. }
+  destruct (ot o =? 129).
+  { destruct (len (od o) =? 4); [|reflexivity]. cbn [negb] in H.
+    destruct (forallb (N.eqb 0) (od o)); [|subst v; contradiction]. cbn.
+    destruct (ix_dns1 x); [reflexivity|subst v; contradiction]. }
+  destruct (ot o =? 131).
+  { destruct (len (od o) =? 4); [|reflexivity]. cbn [negb] in H.
+    destruct (forallb (N.eqb 0) (od o)); [|subst v; contradiction]. cbn.
+    destruct (ix_dns2 x); [reflexivity|subst v; contradiction]. }
+  reflexivity.
+Qed.
+
+(* T5 at the option level: the accept branch with an assigned address *)
+Lemma ipcp_ack_assigned x o a :
+  snd (ipcp_opt x o) = VAck -> ot o = 3 -> ix_peer x = Some a -> od o = a.
+Proof.
+  unfold ipcp_opt. intros H Ht Hp. rewrite Ht, Hp in H. cbn [N.eqb Pos.eqb] in H.
+  destruct (negb _); [discriminate|]. destruct (is_zero (od o)); [discriminate|].
+  destruct (bytes_eqb (od o) a) eqn:E; [apply bytes_eqb_eq; exact E|discriminate].
+Qed.
+
+Lemma v6_nak_type x1 o x2 o' : v6_opt x1 o = (x2, VNak o') -> ot o' = ot o.
+Proof.
+  unfold v6_opt. intros H. destruct (ot o =? 1) eqn:E1; [|discriminate].
+  apply N.eqb_eq in E1. rewrite E1. destruct (negb _); [discriminate|].
+  destruct (be_val (od o) =? 0). { destruct (draw_ifid (vx_rng x1)). inversion H. reflexivity. }
+  destruct (be_val (od o) =? vx_cfg x1); [|discriminate].
+  destruct (draw_ifid (vx_rng x1)) as [nl r1]. destruct (draw_ifid r1). inversion H. reflexivity.
+Qed.
+
+Lemma v6_rej_unacceptable x o k a b :
+  snd (v6_opt x o) = VRej -> mk_kind k = 2 -> acceptable k a b o = false.
+Proof.
+  unfold v6_opt, acceptable. intros H Hk. rewrite Hk. cbn [N.eqb Pos.eqb].
+  destruct (ot o =? 1); [|reflexivity].
+  destruct (len (od o) =? 8); [|reflexivity]. cbn [negb] in H.
+  destruct (be_val (od o) =? 0). { destruct (draw_ifid (vx_rng x)). discriminate. }
+  destruct (be_val (od o) =? vx_cfg x); [|discriminate].
+  destruct (draw_ifid (vx_rng x)) as [nl r1]. destruct (draw_ifid r1). discriminate.
+Qed.
+
+Definition anyx {X} (_ : X) : Prop := True.
+
+(* T4, LCP *)
+Theorem lcp_reply_options s d i data opts p :
+  parse_pkt d = Some (1, i, data) -> parse_opts data = Some opts -> In p (sent lcp_procs s (ERecv d)) ->
+  (pc p = 2 -> pd p = ser_opts opts) /\
+  (pc p = 4 -> exists l, pd p = ser_opts l /\ sublist l opts /\
+               forall o, In o l -> forall k a b, mk_kind k = 0 -> acceptable k a b o = false) /\
+  (pc p = 3 -> exists l, pd p = ser_opts l /\ sublist (map ot l) (map ot opts)).
+Proof.
+  intros Ep Eo Hin.
+  destruct (reply_options lcp_procs lcp_opt anyx (fun _ _ _ => I) (fun _ _ => eq_refl) lcp_nak_type
+              s d i data opts p I Ep Eo Hin) as (Ha & Hr & Hn).
+  repeat split; [exact Ha| |].
+  - intros Hc. destruct (Hr Hc) as (l & E & S & Hl). exists l. repeat split; [exact E|exact S|].
+    intros o Ho k a b Hk. destruct (Hl o Ho) as (x1 & _ & Hv). eapply lcp_rej_unacceptable; eauto.
+  - intros Hc. destruct (Hn Hc) as (l & E & S & _). exists l. split; [exact E|exact S].
+Qed.
+
+(* T4, IPv6CP *)
+Theorem v6_reply_options s d i data opts p :
+  parse_pkt d = Some (1, i, data) -> parse_opts data = Some opts -> In p (sent v6_procs s (ERecv d)) ->
+  (pc p = 2 -> pd p = ser_opts opts) /\
+  (pc p = 4 -> exists l, pd p = ser_opts l /\ sublist l opts /\
+               forall o, In o l -> forall k a b, mk_kind k = 2 -> acceptable k a b o = false) /\
+  (pc p = 3 -> exists l, pd p = ser_opts l /\ sublist (map ot l) (map ot opts)).
+Proof.
+  intros Ep Eo Hin.
+  destruct (reply_options v6_procs v6_opt anyx (fun _ _ _ => I) (fun _ _ => eq_refl) v6_nak_type
+              s d i data opts p I Ep Eo Hin) as (Ha & Hr & Hn).
+  repeat split; [exact Ha| |].
+  - intros Hc. destruct (Hr Hc) as (l & E & S & Hl). exists l. repeat split; [exact E|exact S|].
+    intros o Ho k a b Hk. destruct (Hl o Ho) as (x1 & _ & Hv). eapply v6_rej_unacceptable; eauto.
+  - intros Hc. destruct (Hn Hc) as (l & E & S & _). exists l. split; [exact E|exact S].
+Qed.
+
+(* T4 + T5, IPCP: the option state never changes while a request is processed, so "offending" is
+   exact for Nak as well, and an acknowledged IP-Address is the assigned one *)
+Theorem ipcp_reply_options s d i data opts p k :
+  ipcp_mcfg (f_x s) k ->
+  parse_pkt d = Some (1, i, data) -> parse_opts data = Some opts -> In p (sent ipcp_procs s (ERecv d)) ->
+  (pc p = 2 -> pd p = ser_opts opts /\
+               forall a o, ix_peer (f_x s) = Some a -> In o opts -> ot o = 3 -> od o = a) /\
+  (pc p = 4 -> exists l, pd p = ser_opts l /\ sublist l opts /\
+               forall o, In o l -> forall a b, acceptable k a b o = false) /\
+  (pc p = 3 -> exists l, pd p = ser_opts l /\ sublist (map ot l) (map ot opts) /\
+               forall o', In o' l -> exists o, In o opts /\ ot o = ot o' /\ forall a b, acceptable k a b o = false).
+Proof.
+  intros Hk Ep Eo Hin.
+  set (Q := fun x : ipx => x = f_x s).
+  assert (Qf : forall x o, Q x -> Q (fst (ipcp_opt x o))) by (intros x o Hq; rewrite ipcp_opt_x; exact Hq).
+  destruct (reply_options ipcp_procs ipcp_opt Q Qf (fun _ _ => eq_refl) ipcp_nak_type
+              s d i data opts p eq_refl Ep Eo Hin) as (Ha & Hr & Hn).
+  repeat split.
+  - apply Ha; assumption.
+  - intros a o Hp Ho Ht.
+    (* the Ack came out of classify with empty nak/rej: every option was VAck *)
+    destruct (pr_cr ipcp_procs (f_x s) opts) as [[x' [[ack nak] rej]] mk] eqn:Ec.
+    assert (Ecl : classify ipcp_opt (f_x s) opts = (x', (ack, nak, rej))) by (cbn in Ec; inversion Ec; reflexivity).
+    destruct (rcr_sent ipcp_procs s d i data opts x' ack nak rej mk Ep Eo Ec) as [rest [Es Hrest]].
+    rewrite Es in Hin. destruct Hin as [<-|Hin].
+    + unfold resp_code in H. cbn [pc packet] in H.
+      destruct rej; cbn [nonempty] in H; [|discriminate]. destruct nak; cbn [nonempty] in H; [|discriminate].
+      destruct (classify_parts ipcp_opt Q Qf opts _ _ _ _ _ eq_refl Ecl) as [[_ Ia] _].
+      rewrite (classify_all_ack ipcp_opt opts _ _ _ Ecl) in Ia.
+      destruct (Ia o Ho) as (x1 & Hq & Hv). rewrite Hq in Hv. eapply ipcp_ack_assigned; eauto.
+    + rewrite forallb_forall in Hrest. specialize (Hrest p Hin). rewrite H in Hrest. discriminate.
+  - intros Hc. destruct (Hr Hc) as (l & E & S & Hl). exists l. repeat split; [exact E|exact S|].
+    intros o Ho a b. destruct (Hl o Ho) as (x1 & Hq & Hv). rewrite Hq in Hv.
+    eapply ipcp_unacceptable; [exact Hk|exact Hv|discriminate].
+  - intros Hc. destruct (Hn Hc) as (l & E & S & Hl). exists l. repeat split; [exact E|exact S|].
+    intros o' Ho'. destruct (Hl o' Ho') as (x1 & o & Hq & Ho & Hv). rewrite Hq in Hv.
+    exists o. repeat split; [exact Ho| |].
+    + destruct (ipcp_opt (f_x s) o) as [x2 v] eqn:Ef. cbn in Hv. subst v. symmetry. eapply ipcp_nak_type; eauto.
+    + intros a b. eapply ipcp_unacceptable; [exact Hk|exact Hv|discriminate].
+Qed.
+
+(* ---------------------------------------------------------------------- statements refuted on the Model *)
+(* T6' in full: whatever happened before, once the peer falls silent the automaton reaches a state
+   that needs no timer *)
+Definition always_terminates {X} (P : procs X) : Prop :=
+  forall x evs, exists n, terminal (f_st (silent P n (run P (init x) evs))) = true.
+
+Definition lx0 : lcpx := mklcpx 287454020 1492 49187 5 false false 3 [].
+Definition ix0 : ipx := mkipx (Some [10;0;0;1]) (Some [10;0;0;9]) None None 3.
+Definition ix_unassigned : ipx := mkipx (Some [10;0;0;1]) None None None 3.
+Definition vx0 : v6x := mkv6x 144115188075855873 144115188075855873 3 [].
+Definition ack_then_silence : list ev := [EOpen; EUp; ERecv [2;1;0;4]].
+
+Lemma not_always_terminates {X} (P : procs X) (x : X) :
+  fresh (run P (init x) ack_then_silence) = false ->
+  terminal (f_st (run P (init x) ack_then_silence)) = false ->
+  ~ always_terminates P.
+Proof.
+  intros F T H. destruct (H x ack_then_silence) as [n Hn].
+  rewrite (silent_stuck P n _ F) in Hn. rewrite T in Hn. discriminate.
+Qed.
+
+Theorem lcp_not_always_terminates : ~ always_terminates lcp_procs.
+Proof. apply (not_always_terminates lcp_procs lx0); vm_compute; reflexivity. Qed.
+Theorem ipcp_not_always_terminates : ~ always_terminates ipcp_procs.
+Proof. apply (not_always_terminates ipcp_procs ix0); vm_compute; reflexivity. Qed.
+Theorem v6_not_always_terminates : ~ always_terminates v6_procs.
+Proof. apply (not_always_terminates v6_procs vx0); vm_compute; reflexivity. Qed.
+
+(* T5 in full: an acknowledged IP-Address option is the address assigned to the session *)
+Definition ipcp_acks_only_assigned : Prop :=
+  forall x evs d p opts o,
+    In p (sent ipcp_procs (run ipcp_procs (init x) evs) (ERecv d)) -> pc p = 2 ->
+    parse_opts (pd p) = Some opts -> In o opts -> ot o = 3 -> ix_peer x = Some (od o).
+
+Theorem ipcp_acks_only_assigned_refuted : ~ ipcp_acks_only_assigned.
+Proof.
+  intros H.
+  specialize (H ix_unassigned [EOpen; EUp] [1;3;0;10;3;6;203;0;113;7]
+                (packet 2 3 [3;6;203;0;113;7]) [mkopt 3 [203;0;113;7]] (mkopt 3 [203;0;113;7])).
+  assert (E : ix_peer ix_unassigned = Some [203;0;113;7]).
+  { apply H; vm_compute; auto. }
+  discriminate.
+Qed.
+
+(* ---------------------------------------------------------------------- non-vacuity *)
+Definition rcr_lcp : ev := ERecv [1;7;0;8;1;4;5;220].
+Example ex_opened_reachable :
+  f_st (run lcp_procs (init lx0) [EOpen; EUp; rcr_lcp; ERecv [2;1;0;4]]) = Opened.
+Proof. vm_compute. reflexivity. Qed.
+Example ex_opened_reachable_other_order :
+  f_st (run lcp_procs (init lx0) [EUp; EOpen; ERecv [2;1;0;4]; rcr_lcp]) = Opened.
+Proof. vm_compute. reflexivity. Qed.
+(* the former witness against T1 (stale expiry in Ack-Rcvd, then the peer's request): after the fix *)
+Example ex_stale_expiry_no_longer_opens :
+  f_st (run lcp_procs (init lx0) [EUp; EOpen; ERecv [2;1;0;4]; EFire 1; rcr_lcp]) = AckSent.
+Proof. vm_compute. reflexivity. Qed.
+Example ex_leaving_event :
+  let s := run lcp_procs (init lx0) [EOpen; EUp; rcr_lcp; ERecv [2;1;0;4]] in
+  leaving_of true (f_last s) (ERecv [5;9;0;4]) = true /\ f_st (next lcp_procs s (ERecv [5;9;0;4])) = Stopping.
+Proof. vm_compute. split; reflexivity. Qed.
+Example ex_silent_peer :
+  let s1 := run lcp_procs (init lx0) [EOpen; EUp] in
+  f_st (silent lcp_procs 3 s1) = Stopped /\ count_req lcp_procs (silent_sent lcp_procs 3 s1) = 2%nat.
+Proof. vm_compute. split; reflexivity. Qed.
+Example ex_live_state : live (run v6_procs (init vx0) [EOpen; EUp; ERecv [3;1;0;4]]) = true.
+Proof. vm_compute. reflexivity. Qed.
+Example ex_reject_lists_offending :
+  sent lcp_procs (run lcp_procs (init lx0) [EOpen; EUp]) (ERecv [1;9;0;12;1;4;5;220;3;4;192;35])
+  = [packet 4 9 [3;4;192;35]].
+Proof. vm_compute. reflexivity. Qed.
+Example ex_ipcp_ack_assigned :
+  sent ipcp_procs (run ipcp_procs (init ix0) [EOpen; EUp]) (ERecv [1;3;0;10;3;6;10;0;0;9])
+  = [packet 2 3 [3;6;10;0;0;9]].
+Proof. vm_compute. reflexivity. Qed.
